@@ -187,6 +187,7 @@ theorem parseConnectionPath_noPanic (L : Lib) (p : Str) : G.NoPanic (parseConnec
 
 theorem parseChannelPath_noPanic (L : Lib) (p : Str) : G.NoPanic (parseChannelPath L p) := by
   unfold parseChannelPath
+  dsimp only
   split
   · exact G.noPanic_err _
   · rename_i h
@@ -203,7 +204,7 @@ theorem extractLoop_noPanic (L : Lib) (ds : List Str) (fuel i : Nat) (tr : List 
   | zero => exact G.noPanic_ok _
   | succ f ih =>
     rw [extractLoop]
-    simp only
+    try dsimp only
     split
     · exact G.noPanic_ok _
     · rename_i hi
